@@ -13,3 +13,106 @@ package client
 //@   ensures [error-status-is-an-error] resp.StatusCode > 399 && resp.StatusCode < 600 ==> err != nil
 //@   ensures [success-only-for-non-error-status] err == nil ==> resp.StatusCode <= 399 || resp.StatusCode >= 600
 //@   modifies *
+
+// ---- "a call made through the bundled client library arrives with the arguments it was given" ----
+// every method sends exactly one request, with the HTTP method and the path of the route it stands for, the path
+// built from the arguments the caller gave (the route table on the server side is checked in api/rest)
+//@ ghost var reqN int
+// (the HTTP exchange itself is not verified here: handleResponse above is its verified part)
+//@ func (c *defaultClient) do
+//@   opts trusted
+//@   counts reqN when true
+//@   modifies *obj
+
+//@ func (c *defaultClient) ID
+//@   property C11
+//@   at_call defaultClient.do assert [route] method == "GET" && path == "/id" && isnil(body)
+//@   ensures [one-request] reqN == old(reqN) + 1
+//@   modifies *
+//@ func (c *defaultClient) Peers
+//@   property C11
+//@   at_call defaultClient.do assert [route] method == "GET" && path == "/peers" && isnil(body)
+//@   ensures [one-request] reqN == old(reqN) + 1
+//@   modifies *
+//@ func (c *defaultClient) PeerAdd
+//@   property C11
+//@   at_call defaultClient.do assert [route] method == "POST" && path == "/peers"
+//@   ensures [one-request] reqN == old(reqN) + 1
+//@   modifies *
+//@ func (c *defaultClient) PeerRm
+//@   property C11
+//@   at_call defaultClient.do assert [route] method == "DELETE" && path == sprintf("/peers/%s", id.Pretty())
+//@   ensures [one-request] reqN == old(reqN) + 1
+//@   modifies *
+//@ func (c *defaultClient) Pin
+//@   property C11
+//@   at_call defaultClient.do assert [route] method == "POST" && path == sprintf("/pins/%s?%s", ci.String(), query) && isnil(body)
+//@   ensures [at-most-one-request] reqN <= old(reqN) + 1
+//@   ensures [success-means-sent] err == nil ==> reqN == old(reqN) + 1
+//@   modifies *
+//@ func (c *defaultClient) Unpin
+//@   property C11
+//@   at_call defaultClient.do assert [route] method == "DELETE" && path == sprintf("/pins/%s", ci.String()) && isnil(body)
+//@   ensures [one-request] reqN == old(reqN) + 1
+//@   modifies *
+//@ func (c *defaultClient) PinPath
+//@   property C11
+//@   at_call defaultClient.do assert [route] method == "POST" && arg_path == sprintf("/pins%s?%s", ipfspath.String(), query) && isnil(body)
+//@   ensures [success-means-sent] err == nil ==> reqN == old(reqN) + 1
+//@   modifies *
+//@ func (c *defaultClient) UnpinPath
+//@   property C11
+//@   at_call defaultClient.do assert [route] method == "DELETE" && path == sprintf("/pins%s", ipfspath.String()) && isnil(body)
+//@   ensures [success-means-sent] err == nil ==> reqN == old(reqN) + 1
+//@   modifies *
+//@ func (c *defaultClient) Allocation
+//@   property C11
+//@   at_call defaultClient.do assert [route] method == "GET" && path == sprintf("/allocations/%s", ci.String()) && isnil(body)
+//@   ensures [one-request] reqN == old(reqN) + 1
+//@   modifies *
+//@ func (c *defaultClient) Status
+//@   property C11
+//@   at_call defaultClient.do assert [route] method == "GET" && path == sprintf("/pins/%s?local=%t", ci.String(), local) && isnil(body)
+//@   ensures [one-request] reqN == old(reqN) + 1
+//@   modifies *
+//@ func (c *defaultClient) StatusAll
+//@   property C11
+//@   at_call defaultClient.do assert [route] method == "GET" && path == sprintf("/pins?local=%t&filter=%s", local, libfn("url.QueryEscape", 0, filterStr)) && isnil(body)
+//@   at_call defaultClient.do assert [no-filter-means-all] filter == api.TrackerStatusUndefined ==> filterStr == ""
+//@   ensures [success-means-sent] err == nil ==> reqN == old(reqN) + 1
+//@   modifies *
+//@ func (c *defaultClient) Recover
+//@   property C11
+//@   at_call defaultClient.do assert [route] method == "POST" && path == sprintf("/pins/%s/recover?local=%t", ci.String(), local) && isnil(body)
+//@   ensures [one-request] reqN == old(reqN) + 1
+//@   modifies *
+//@ func (c *defaultClient) RecoverAll
+//@   property C11
+//@   at_call defaultClient.do assert [route] method == "POST" && path == sprintf("/pins/recover?local=%t", local) && isnil(body)
+//@   ensures [one-request] reqN == old(reqN) + 1
+//@   modifies *
+//@ func (c *defaultClient) Alerts
+//@   property C11
+//@   at_call defaultClient.do assert [route] method == "GET" && path == "/health/alerts" && isnil(body)
+//@   ensures [one-request] reqN == old(reqN) + 1
+//@   modifies *
+//@ func (c *defaultClient) Version
+//@   property C11
+//@   at_call defaultClient.do assert [route] method == "GET" && path == "/version" && isnil(body)
+//@   ensures [one-request] reqN == old(reqN) + 1
+//@   modifies *
+//@ func (c *defaultClient) GetConnectGraph
+//@   property C11
+//@   at_call defaultClient.do assert [route] method == "GET" && path == "/health/graph" && isnil(body)
+//@   ensures [one-request] reqN == old(reqN) + 1
+//@   modifies *
+//@ func (c *defaultClient) Metrics
+//@   property C11
+//@   at_call defaultClient.do assert [route] method == "GET" && path == sprintf("/monitor/metrics/%s", name) && isnil(body)
+//@   ensures [success-means-sent] err == nil ==> reqN == old(reqN) + 1
+//@   modifies *
+//@ func (c *defaultClient) MetricNames
+//@   property C11
+//@   at_call defaultClient.do assert [route] method == "GET" && path == "/monitor/metrics" && isnil(body)
+//@   ensures [one-request] reqN == old(reqN) + 1
+//@   modifies *
